@@ -74,11 +74,32 @@ class Demote:
         setattr(self._res, name, value)
 
 
+VERBOSE = [0]      # > 0 while a slice runs under vlib.common.verbose_logging()
+
+
 def quiet():
     import warnings
     warnings.filterwarnings("ignore")
     np.seterr(all="ignore")
-    logging.disable(logging.CRITICAL)
+    if not VERBOSE[0]:
+        logging.disable(logging.CRITICAL)
+
+
+class verbose_slice:
+    """run a slice the way every batchie command runs under -v/--verbose (logger `batchie` at DEBUG with a formatting sink); the CLI mains
+    called inside additionally get `--verbose` (see _main)"""
+
+    def __enter__(self):
+        self.cm = common.verbose_logging()
+        self.sink = self.cm.__enter__()
+        VERBOSE[0] += 1
+        return self
+
+    def __exit__(self, *a):
+        VERBOSE[0] -= 1
+        r = self.cm.__exit__(*a)
+        quiet()
+        return r
 
 
 def get_model_cls(kind):
@@ -443,12 +464,19 @@ def first_diff(a, b):
 
 
 def _main(mod, argv):
+    """the real `batchie.cli.<stage>.main()` with this argv; under a verbose slice with `--verbose` (configure_logging resets the level)"""
+    import contextlib
+    lg = logging.getLogger("batchie")
+    handlers, level = list(lg.handlers), lg.level
     old = sys.argv
-    sys.argv = argv
+    sys.argv = list(argv) + (["--verbose"] if VERBOSE[0] else [])
     try:
-        mod.main()
+        with open(os.devnull, "w") as devnull, contextlib.redirect_stderr(devnull), contextlib.redirect_stdout(devnull):
+            mod.main()
     finally:
         sys.argv = old
+        lg.handlers = handlers          # configure_logging adds a stream handler per call
+        lg.setLevel(level)
         quiet()
 
 
@@ -540,6 +568,10 @@ run_cli_train.k = 0
 
 def one_pair(ctx, res, env, case, lines, expect_cb, heavy=True, cli=False):
     """case: {raw, poison, seed}; runs base and poisoned screen, all oracles"""
+    if case.get("verbose") and not VERBOSE[0]:
+        with verbose_slice():
+            res.count("class.verbose-logging")
+            return one_pair(ctx, res, env, case, lines, expect_cb, heavy=heavy, cli=cli)
     rawA = case["raw"]
     if case["poison"] == "inf":
         # the quantifier names finite values, 0, 1, NaN and negative values: +inf behind the mask is outside it
@@ -692,6 +724,8 @@ def one_pair(ctx, res, env, case, lines, expect_cb, heavy=True, cli=False):
                     continue
                 ca, cb = couts
                 res.count("cli.chain.%s" % case["poison"])
+                for st_ in ("train_model", "calculate_distance_matrix", "calculate_scores", "select_next_plate"):
+                    res.count("class.entry-point.%s" % st_)
                 if "downstream_error" in ca or "downstream_error" in cb:
                     res.count("cli.chain.downstream-error.%s" % kind)
                 if kind == "combo" and case["seed"] % 5 == 1:
@@ -792,6 +826,169 @@ def flush_pipe(ctx, res):
         res.traces_validated += len(PIPE["lines"])
     for k in PIPE:
         del PIPE[k][:]
+
+
+# ------------------------------------------------------------------ real entry point: file -> Screen.load_h5 -> train_model.main()
+REC = {"log": []}
+
+
+def recording_models():
+    """subclasses of the two shipped models that record what `train_model.main()` hands to `add_observations` and what the sampler holds
+    afterwards; made discoverable for the CLI's introspection (`--model VerifRec…`)"""
+    if "combo" in REC:
+        return
+    import batchie.models.sparse_combo as m1
+    import batchie.models.sparse_combo_interaction as m2
+
+    def mk(base, kind):
+        class Rec(base):
+            def add_observations(self, data):
+                entry = {"kind": kind, "received_mask": [bool(x) for x in data.observation_mask], "received_obs": [S.bits(float(x)) for x in data.observations]}
+                REC["log"].append(entry)
+                super().add_observations(data)
+                entry["record"] = rec_canon(record(kind, self))
+        Rec.__name__ = Rec.__qualname__ = "VerifRec" + base.__name__
+        return Rec
+    REC["combo"] = mk(m1.SparseDrugCombo, "combo")
+    REC["interaction"] = mk(m2.SparseDrugComboInteraction, "interaction")
+    m1.VerifRecSparseDrugCombo = REC["combo"]
+    m2.VerifRecSparseDrugComboInteraction = REC["interaction"]
+
+
+def train_via_main(env, raw, kind):
+    """write the screen FILE, run the real `train_model.main()` on it with the recording model.  Returns
+    ("ok", record the model holds, thetas file exists) or ("refused", text, thetas file exists)"""
+    from batchie.cli import train_model
+    recording_models()
+    k = run_cli_train.k
+    run_cli_train.k += 1
+    data = os.path.join(env, "ep_d_%d.h5" % k)
+    out = os.path.join(env, "ep_t_%d.h5" % k)
+    S.build(raw).save_h5(data)
+    del REC["log"][:]
+    name = "VerifRec" + [c for kk, _, c in MODELS if kk == kind][0]
+    try:
+        _main(train_model, ["train_model", "--data", data, "--model", name, "--model-param", "n_embedding_dimensions=2", "--output", out,
+                            "--n-samples", "2", "--n-burnin", "1", "--thin", "1", "--n-chains", "1", "--chain-index", "0", "--seed", "0"])
+    except BaseException as e:   # noqa: BLE001  (SystemExit of argparse included)
+        if isinstance(e, KeyboardInterrupt):
+            raise
+        return "refused", "%s: %s" % (type(e).__name__, str(e)[:120]), os.path.exists(out), data
+    log = list(REC["log"])
+    return "ok", (log[-1] if log else None), os.path.exists(out), data
+
+
+def file_values(res, path):
+    """the observation column and mask of a screen file, read RAW with h5py.  The dataset names are knowledge of the current file layout, i.e.
+    tie material: anything unexpected here (missing dataset, other structure) is `layout.unexpected` + a disagreement, never an oracle
+    failure and never an exception (the property oracles go through the public loaders)"""
+    try:
+        import h5py
+        with h5py.File(path, "r") as f:
+            obs = [S.bits(float(x)) for x in f["observations"][:]]
+            mask = [bool(x) for x in f["observation_mask"][:]]
+        if len(obs) != len(mask):
+            raise ValueError("observations / observation_mask of different length")
+        return obs, mask
+    except Exception as e:   # noqa: BLE001
+        res.count("layout.unexpected")
+        res.disagree("C04:layout:screen-file", {"file": os.path.basename(path)}, "%s: %s" % (type(e).__name__, str(e)[:150]),
+                     "datasets `observations`, `observation_mask` (the layout the harness knows)")
+        return None
+
+
+def entry_point_case(ctx, res, env, case):
+    """one screen through file -> Screen.load_h5 -> train_model.main():
+    (a) as is: the model must end up with exactly the documented observed rows of the FILE;
+    (b) NaN / negative / -inf only BEHIND the mask: same rows, same thetas file content;
+    (c) NaN / negative / -inf in an OBSERVED row: the stage must refuse (exception / non-zero exit)"""
+    from batchie.core import ThetaHolder
+    from batchie.data import Screen
+    raw, kind = case["raw"], case["model"]
+    vb = verbose_slice() if (case.get("verbose") and not VERBOSE[0]) else None
+    if vb:
+        vb.__enter__()
+        res.count("class.verbose-logging")
+    try:
+        res.evaluations += 1
+        res.count("class.entry-point.train_model")
+        exp, use = expected_training(kind, S.build(raw))          # from the in-memory description, never from a loaded screen
+        n = len(raw["snames"])
+        mask = [bool(x) for x in raw["mask"]]
+        # (a)
+        st, got, wrote, path = train_via_main(env, raw, kind)
+        c = dict(case)
+        if st != "ok":
+            Demote(res, "valid-file-refused").fail("train_model.main() refused a valid partially observed screen file", c, got, "trains", signature="C04:cli-raises:" + kind)
+            return
+        rec0 = None if got is None else got.get("record")
+        if any(mask):
+            if got is None or rec0 != exp:
+                res.fail("train_model.main() on a screen file: the model does not hold exactly the documented observed rows of the file, once each, "
+                         "transformed as documented", c, {"differs_in": first_diff(rec0 or {}, exp), "got": rec0}, exp, signature="C04:trained-rows:" + kind)
+            elif not all(got["received_mask"]):
+                res.fail("train_model.main() handed the model rows that are not observed", c, got["received_mask"], "observed rows only",
+                         signature="C04:trained-rows:" + kind)
+        th0 = theta_canon(ThetaHolder(n_thetas=2).load_h5(os.path.join(env, os.path.basename(path).replace("ep_d_", "ep_t_")))) if wrote else None
+        # load path, value by value (a summary / logging helper run on load must not rewrite the file's values): C02's clause, counted here
+        fv = file_values(res, path)
+        if fv is not None:
+            try:
+                ld = Screen.load_h5(path)
+                if [S.bits(float(x)) for x in ld.observations] != fv[0] or [bool(x) for x in ld.observation_mask] != fv[1]:
+                    res.count("load-path.values-rewritten")
+            except Exception:   # noqa: BLE001
+                res.count("load-path.load-raised")
+        # (b) poison behind the mask
+        if not all(mask):
+            for pname in ("nan", "negative", "neginf"):
+                rb = poisoned(raw, ctx.subrng("c04-ep", case["seed"], pname), pname)
+                st, gb, wrote_b, pb = train_via_main(env, rb, kind)
+                res.count("class.entry-point.train_model.masked-" + pname)
+                cb = dict(case, poison=pname)
+                if st != "ok":
+                    res.fail("train_model.main() refused a screen file because of a value stored BEHIND the mask", cb, gb,
+                             "trains on the observed subset whatever is stored behind the mask", signature="C04:cli-raises:" + kind)
+                    continue
+                rb_ = None if gb is None else gb.get("record")
+                thb = theta_canon(ThetaHolder(n_thetas=2).load_h5(pb.replace("ep_d_", "ep_t_"))) if wrote_b else None
+                if rb_ != rec0 or thb != th0:
+                    res.fail("train_model.main(): training rows / thetas file differ between screen files that differ only behind the mask", cb,
+                             {"rows_differ": rb_ != rec0, "thetas_differ": thb != th0}, "identical", signature="C04:cli-interference:" + kind)
+        # (c) a bad value in an OBSERVED row
+        obs_rows = [i for i in range(n) if mask[i]]
+        if obs_rows:
+            tn, td = raw["tnames"], raw["tdoses"]
+            combos = [i for i in obs_rows if all(nm != "control" and d > 0 for nm, d in zip(tn[i], td[i]))]
+            for j, (bname, bad) in enumerate((("nan", float("nan")), ("negative", -0.25), ("neginf", float("-inf")))):
+                pool = combos if (combos and (case["seed"] + j) % 2 == 0) else obs_rows
+                pos = pool[(case["seed"] + j) % len(pool)]
+                rbad = dict(raw, obs=[bad if i == pos else o for i, o in enumerate(raw["obs"])])
+                st, gb, wrote_b, pb = train_via_main(env, rbad, kind)
+                res.evaluations += 1
+                res.count("class.entry-point.train_model.observed-" + bname)
+                if st == "ok":
+                    held = None if gb is None else gb.get("record")
+                    res.fail("train_model.main() accepted a screen file with a %s observation in an OBSERVED experiment and trained on it" % bname,
+                             dict(case, bad=bname, row=pos), {"model_holds_n_obs": None if held is None else held.get("n_obs"),
+                                                               "value_received": None if gb is None else [S.from_bits(b) for b, m_ in zip(gb["received_obs"], gb["received_mask"])][:40]},
+                             "the stage refuses (exception / non-zero exit)", signature="C04:cli-accepts-bad-value:" + kind)
+                elif wrote_b:
+                    res.count("entry-point.refused-but-thetas-file-written")
+    finally:
+        if vb:
+            vb.__exit__(None, None, None)
+
+
+def entry_points(ctx, res, env):
+    rng = ctx.subrng("c04-entry")
+    for t in range(ctx.scale(8, 60, 20)):
+        raw = gen_base(rng, force={3: "plate0-masked", 5: "no-observed"}.get(t))
+        for kind in ("combo", "interaction"):
+            case = {"raw": raw, "seed": 800000 + t, "model": kind, "check": "entry-point", "poison": "nan"}
+            if t % 4 == 1:
+                case["verbose"] = True
+            entry_point_case(ctx, res, env, case)
 
 
 def classes(res, case, raw, scr):
@@ -1199,6 +1396,8 @@ def run(ctx, res):
             poison = kinds[t % len(kinds)]
             case = {"raw": raw, "poison": poison, "seed": t, "ncs": [1, 2] if ctx.tier == "quick" else [1, 2, 3, 5],
                     "layout": {1: 0, 2: 1}.get(t % 4)}
+            if t % 7 == 1 or t in (5, 6):          # ~15 % of the pairs (incl. CLI pair 1, nothing-observed, plate-0-masked) under -v/--verbose
+                case["verbose"] = True
             heavy = True
             one_pair(ctx, res, env, case, lines, expect_cb, heavy=heavy, cli=(t < n_cli))
             res.count("poison." + poison)
@@ -1216,6 +1415,7 @@ def run(ctx, res):
             one_pair(ctx, res, env, case, lines, expect_cb, heavy=True, cli=(j == 0))
             res.count("class.int-width.observed-rows-%d" % n_obs)
         arity_stream(ctx, res, lines, expect_cb)
+        entry_points(ctx, res, env)
         flush(ctx, res, lines, expect_cb)
         flush_pipe(ctx, res)
     finally:
@@ -1239,7 +1439,10 @@ def replay(ctx, case, res):
                 res.fail("training outcome differs between screens that differ only behind the mask", case, {"A": outs[0], "B": outs[1]}, "identical",
                          signature="C04:train-interference:" + case["model"])
             return
-        c = {k: case[k] for k in ("raw", "poison", "seed", "layout") if k in case}
+        if case.get("check") == "entry-point":
+            entry_point_case(ctx, res, env, case)
+            return
+        c = {k: case[k] for k in ("raw", "poison", "seed", "layout", "verbose") if k in case}
         c["ncs"] = case.get("ncs", [1, 2])
         if "model" in case:
             c["models"] = [case["model"]]
